@@ -228,6 +228,10 @@ def _cluster(rng, n, m, arrangement, base=None):
 def run(ctx):
     install()
     rng = ctx.rng
+    from rv.props import concurrent_jobs
+
+    concurrent_jobs.run_some(ctx, "C07")        # the same calls from a thread pool (rv/core/threads.py)
+    ctx.must_monitors.append("concurrent_calls")
     ctx.rule = ("(source list, target list, buffers): all 49 length pairs 0..6 x arrangement {chain, ties, disjoint, duplicates, mixed, random} x type mix; "
                 "non-trivial = both lists non-empty; distinct = distinct case spec")
     ctx.assumptions += ["valid geometries; positive buffers when points/lines take part", "optimality judged by brute force up to 7x7, not judged beyond",
@@ -275,6 +279,15 @@ def run(ctx):
                 if arr == "duplicates" and ss and ts:
                     ts = [ss[0]] * len(ts) if rng.random() < 0.5 else ts
                 mix = mix + ":" + where
+                if (ss or ts) and rng.random() < 0.3:
+                    # a member of ANOTHER type that coincides with an existing one under some projection (same coordinates
+                    # payload, same shapely shape: a time stamp and the full-height line at that instant, ...)
+                    lst = rng.choice([l for l in (ss, ts) if l])
+                    twins = geoms.lookalikes(rng.choice(lst))
+                    if twins:
+                        rng.choice([ss, ts]).insert(rng.randint(0, 1), rng.choice(twins))
+                        ss, ts = ss[:7], ts[:7]
+                        mix += ":with_lookalike"
                 if (ss or ts) and rng.random() < 0.2:
                     # one member drawn without duration or bandwidth (click-and-release): still mentioned exactly once,
                     # paired only if its affinity with the partner is positive
